@@ -513,7 +513,7 @@ def run_one(make, files, funcs, schedule, max_decisions=4000, keep_trace=False):
 
 
 def explore(make, files, funcs=None, max_preempt=1, bg_lens=(1, 4, 24), max_bg_preempt=1, unit_names=(), max_decisions=4000, budget=None,
-            deadline=None, max_points=None):
+            deadline=None, max_points=None, cpu_deadline=None):
     """enumerate all schedules with <= max_preempt pre-emptions; yields (schedule, Outcome)"""
     count = [0]
 
@@ -522,6 +522,8 @@ def explore(make, files, funcs=None, max_preempt=1, bg_lens=(1, 4, 24), max_bg_p
             return
         if deadline is not None and time.time() > deadline:
             return
+        if cpu_deadline is not None and time.process_time() > cpu_deadline:
+            return          # budget in CPU time of this worker: what is covered does not depend on the machine's load
         out = run_one(make, files, funcs, prefix, max_decisions)
         count[0] += 1
         yield list(prefix), out
